@@ -368,6 +368,7 @@ fn parse_edge_line(line: &str) -> Option<Value> {
 
 fn main() {
     vh::quiet_panics();
+    vh::maybe_log();
     let args: Vec<String> = std::env::args().collect();
     let mut cfg_path = String::new();
     let mut seed: u64 = std::env::var("VERIF_SEED").ok().and_then(|s| s.parse().ok()).unwrap_or(1);
